@@ -25,7 +25,7 @@ def pick_params(rng, tier):
   return dict(nmax=25 if tier == 'quick' else 40, shape=None)
 
 
-def run_plain(ctx, rng, spec, start, script, host_cls=HsmEventProcessor, spied=False, query_rng=None):
+def run_plain(ctx, rng, spec, start, script, host_cls=HsmEventProcessor, spied=False, query_rng=None, unset=None):
   """Runs and compares; returns list of findings (prop, key, what, witness) --
   at most one (the run stops at the first disagreement) -- and fills counters."""
   run = cg.Run(spec, spied=spied)
@@ -33,6 +33,12 @@ def run_plain(ctx, rng, spec, start, script, host_cls=HsmEventProcessor, spied=F
   chart = cg.counted_host(host_cls, run)()
   names = spec['names']
   wit = {'spec': spec, 'start': start, 'script': script}
+  if unset:
+    # the chart's state / temp holders are None when start_at is called (start_at has a branch that creates them)
+    wit['attributes_set_to_None_before_start_at'] = list(unset)
+    for a in unset:
+      setattr(chart, a, None)
+    ctx.count('starts_with_unset_state_holders')
   try:
     chart.start_at(run.fns[start])
   except cg.Budget:
